@@ -246,7 +246,8 @@ func spaces(tier string) []*gridx.Space {
 	// StorageRouting
 	var sp [][]float64
 	var sn []string
-	for _, km := range [][2]float64{{21600, 1}, {86400, 0.8}, {172800, 0.6}} {
+	// m = 0.9995 lies inside the kernel's own |m-1| < 0.001 special-casing window (used for non-zero bias only)
+	for _, km := range [][2]float64{{21600, 1}, {86400, 0.8}, {172800, 0.6}, {50000, 0.9995}} {
 		ps, pn := gridx.Grid("StorageRouting", map[string]float64{"RoutingConstant": km[0], "RoutingPower": km[1], "DeltaT": 86400},
 			[]gridx.Axis{A("deadStorage", 0, 5e4), A("InflowBias", 0, 0.2), A("area", 0, 1e4)})
 		for i := range ps {
@@ -255,7 +256,7 @@ func spaces(tier string) []*gridx.Space {
 		}
 	}
 	srLetters := [][]float64{{0, 0, 0, 0}, {0.5, 0, 0, 0}, {20, 0, 0, 0}, {500, 3, 0, 0}, {0, 3, 0, 0}, {20, 0, 10, 0}, {0.5, 0, 0, 8}, {0, 0, 0, 8}, {0, 0, 10, 0}, {0.5, 0, 10, 2}, {0, 0, 2, 0.5}}
-	out = append(out, &gridx.Space{Model: "StorageRouting", Params: sp, PNames: sn, Letters: srLetters, T: T, Oracle: srOracle})
+	out = append(out, &gridx.Space{Model: "StorageRouting", Params: sp, PNames: sn, Letters: srLetters, T: T, Oracle: srOracle, SecondPassEvery: 8})
 
 	// Muskingum: (K, X) with 2KX <= dt <= 2K(1-X)
 	var mp [][]float64
@@ -280,7 +281,7 @@ func spaces(tier string) []*gridx.Space {
 func Spec() *vf.Check {
 	return &vf.Check{
 		ID: "C11", Level: "exploration", BlockSize: 512,
-		Rule: "StorageRouting: (k,m) in {(21600,1),(86400,0.8),(172800,0.6)} x dead storage {0,5e4} x bias {0,0.2} x area {0,1e4} x every word of length T over 11 (inflow,lateral,rain,evap) letters: per-step balance, Q>=0, S>=0, S=k*Q^m+dead within the solver tolerance (bias 0). " +
+		Rule: "StorageRouting: (k,m) in {(21600,1),(86400,0.8),(172800,0.6),(50000,0.9995)} x dead storage {0,5e4} x bias {0,0.2} x area {0,1e4} x every word of length T over 11 (inflow,lateral,rain,evap) letters: per-step balance, Q>=0, S>=0, S=k*Q^m+dead within the solver tolerance (bias 0). " +
 			"Muskingum: (K,X) grid in the stable region x every (inflow,lateral) word + 600-step zero tail: event volume conserved, no negative outflow; every letter as a 400-step steady flow passes unchanged. " +
 			"Lag: lag {0,1,2,3,5,8} x every word of every length 1..T+2 over {0,1,7} x {zero, pre-filled} carried-over buffer: FIFO reference for outputs and final buffer. distinct_nontrivial = cases with non-zero flow.",
 		Assumptions: []string{"potential net evaporation is bounded using the loosest reading of the units (area*(evap-rain)/dt)", "StorageRouting S(Q) law is required up to the solver's two stopping tolerances: a balance residual <= massBalanceLimit or an index flow within 2*convergenceLimit of the exact root (near Q=0 with m<1 the S(Q) slope is unbounded, so the second one matters); the exact root is found by bisection in the harness", "lattice values only"},
